@@ -827,10 +827,20 @@ class StateNode(Generic[TContext, TEvent]):
         if self.type != "compound" or initial:
             return initial
 
+        # 🛡️ This runs before the shape of `states` is validated; a
+        #    non-mapping here used to escape as a raw `AttributeError`.
+        raw_states = config.get("states", {})
+        if not isinstance(raw_states, dict):
+            raise InvalidConfigError(
+                f"State '{self.id}' has an invalid 'states' value of type "
+                f"'{type(raw_states).__name__}'. Expected an object/dict "
+                f"mapping state names to definitions."
+            )
+
         # 🕰️ History pseudo-states are never a valid initial target.
         candidates = [
             key
-            for key, child in config.get("states", {}).items()
+            for key, child in raw_states.items()
             if not (isinstance(child, dict) and child.get("type") == "history")
         ]
 
